@@ -56,6 +56,8 @@ type runner struct {
 func main() {
 	r := vlib.Start("C01", "exploration")
 	r.Assume("RRSIG validity is judged against the real clock; zones are signed with windows of -48h/+30d (or deliberately expired / not yet valid)")
+	r.Assume("trust-anchor loss is produced by the overlay hook VerifC01ClearTrustAnchors (the assignment AutoTA's fail-closed path makes) at a quiescent point after the start-up AutoTA run; a reply to a question that was never sent upstream during the outage is cache-served data validated while an anchor was available and is not flagged")
+	r.Assume("a DS record is unusable when its digest type is not 1/2/4 or its key algorithm is not one of 5,7,8,10,13,14,15; the generator fabricates only records that are unusable beyond doubt (digest 3/7/200/255, algorithm 1/12/200/253; 16 only next to a usable record)")
 	r.Assume("key material is random per run (crypto/rand); case lists, topologies, tamper choices are functions of VERIF_SEED")
 	run := &runner{r: r, client: "127.0.0.1:40001"}
 
@@ -111,6 +113,14 @@ func main() {
 		}
 		batches = append(batches, batch{lo, hi})
 	}
+	// the directed worlds (directed.go) are part of every run
+	for k := 0; k < nDirected(); k += 2 {
+		hi := k + 2
+		if hi > nDirected() {
+			hi = nDirected()
+		}
+		batches = append(batches, batch{directedBase + k, directedBase + hi})
+	}
 	sem := make(chan struct{}, workers)
 	var wg sync.WaitGroup
 	for _, b := range batches {
@@ -142,6 +152,35 @@ func main() {
 	for _, role := range []string{roleReferral, roleDS, roleDNSKEY, roleAnswer, roleNegative} {
 		r.Require("role_observed/"+role, 3)
 	}
+	// responses whose only defect is the RRSIG window, delivered per role
+	for _, k := range []string{"expired", "notyet"} {
+		for role, min := range map[string]int64{roleAnswer: 6, roleNegative: 6, roleDNSKEY: 4, roleDS: 4, roleReferral: 2} {
+			r.Require("window_only_delivered/"+k+"/"+role, min)
+		}
+	}
+	r.Require("window_only_reply_servfail", 40)
+	// mixed / unusable-only DS RRsets: delivered in both orders, judged
+	r.Require("ds_rrset_delivered/mixed_unusable_first", 20)
+	r.Require("ds_rrset_delivered/mixed_usable_first", 20)
+	r.Require("ds_rrset_delivered/unusable_only", 4)
+	r.Require("mixedds_control_truth_ad", 60)
+	r.Require("unusable_only_ds_truth_no_ad", 10)
+	r.Require("directed_cases_observed/mixedds", 30)
+	r.Require("directed_reply_servfail/mixedds", 30)
+	r.Require("directed_cases_observed/window", 48)
+	r.Require("directed_cases_observed/regress", 8)
+	// trust anchors lost in the middle of a history
+	r.Require("anchor_loss/outages", 2)
+	r.Require("anchor_loss/outage_replies_judged", 30)
+	r.Require("anchor_loss/outage_servfail", 20)
+	r.Require("anchor_loss/outage_replies/positive@warm", 6)
+	r.Require("anchor_loss/outage_replies/negative@warm", 6)
+	r.Require("anchor_loss/outage_replies/wildcard@warm", 2)
+	r.Require("anchor_loss/outage_replies/positive@cold", 4)
+	r.Require("anchor_loss/recovery_truth_ad", 4)
+	// signed zone below an insecure cut, answered directly by an ancestor's server
+	r.Require("island_cut/direct_answer_by_ancestor_server", 12)
+	r.Require("island_cut/ds_fetched_via_insecure_parent", 12)
 	r.Finish(rule)
 }
 
@@ -152,7 +191,7 @@ func sweep() {
 	authsim.SweepTemp()
 }
 
-const rule = "distinct_nontrivial = distinct (level signing pattern, tamper kind, zone:response-role) triples whose forged response was actually sent to the resolver by a scripted server during the case; evaluations = client-visible replies judged"
+const rule = "generated hierarchies plus the fixed directed worlds of directed.go (RRSIG-window-only forgeries per response role, mixed / unusable-only DS RRsets in every order, trust anchors lost and restored mid-history, signed zone below an insecure cut answered by an ancestor server on a cold resolver); distinct_nontrivial = distinct (level signing pattern, tamper kind, zone:response-role) triples whose forged response was actually sent to the resolver by a scripted server during the case; evaluations = client-visible replies judged"
 
 func (run *runner) nextID() uint16 { run.id++; return run.id }
 
@@ -215,9 +254,32 @@ func (run *runner) report(j judgement, c CaseSpec, w *world, reply *dns.Msg, fro
 func (run *runner) hierarchy(index, onlyCase int) {
 	r := run.r
 	rng := r.RandN("hier", index)
-	spec := genHier(rng, index)
+	var spec *HierSpec
+	if index >= directedBase {
+		spec = directedSpec(index - directedBase)
+		if spec == nil {
+			return
+		}
+	} else {
+		spec = genHier(rng, index)
+		decorateDSMix(r.RandN("dsmix", index), spec)
+	}
 	w := buildWorld(spec)
 	defer w.u.Close()
+	if spec.Directed != "" {
+		r.Count("directed_worlds", 1)
+		if strings.HasPrefix(spec.Directed, "anchor-loss") {
+			run.anchorLoss(w, index, onlyCase)
+			return
+		}
+		installDirectedScripts(w)
+		if directedFamily(spec.Directed) == "island-cut" {
+			run.islandCut(w, index)
+			if r.Violations() > 0 && onlyCase == -1 {
+				return
+			}
+		}
+	}
 	pattern := spec.Pattern()
 	r.DistinctIn("patterns", pattern)
 	r.Count("hierarchies", 1)
@@ -228,6 +290,8 @@ func (run *runner) hierarchy(index, onlyCase int) {
 	if st == nil {
 		return
 	}
+	w.installObserver()
+	defer run.flushObserver(w)
 	qs := w.queryKinds("c")
 	for _, q := range qs {
 		e := w.expect(q)
@@ -269,6 +333,9 @@ func (run *runner) hierarchy(index, onlyCase int) {
 			r.Count("servfail_without_ede/control", 1)
 		}
 		controlOK[q.Kind] = ok
+		if spec.Directed != "" {
+			run.directedControl(w, q, e, reply, ok, from, false)
+		}
 		if debug {
 			ad := reply != nil && reply.AuthenticatedData
 			fmt.Fprintf(os.Stderr, "H%d %s control %-40s -> %s ad=%v ok=%v want=%s/%s mustFail=%v %s\n", index, pattern, q, j.Class, ad, ok, e.res.Final.Kind, e.res.Status, e.mustFail, j.Why)
@@ -292,6 +359,18 @@ func (run *runner) hierarchy(index, onlyCase int) {
 	}
 	st.Close()
 	if onlyCase == -1 {
+		return
+	}
+	if spec.Directed != "" {
+		for _, s := range w.u.Servers() {
+			s.ClearScript(true)
+		}
+		for ci, p := range directedPlans(w, controlOK) {
+			if onlyCase >= 0 && ci != onlyCase {
+				continue
+			}
+			run.execute(w, index, ci, p, r.RandN(fmt.Sprintf("case-%d", index), ci))
+		}
 		return
 	}
 
@@ -340,18 +419,20 @@ func parentRole(zoneRole string) string {
 	return ""
 }
 
-func (run *runner) tamperCase(w *world, hier, ci int, rng *rand.Rand, perm []int, controlOK map[string]bool) {
-	r := run.r
-	salt := fmt.Sprintf("t%d", ci)
-	qs := w.queryKinds(salt)
-	// choose the kind by rotation so every family is exercised at any seed
-	var kind *tamperKind
+// plan is one fully determined tamper case.
+type plan struct {
+	kind       *tamperKind
+	cd         candidate
+	allServers bool
+	cdFirst    bool
+	q          QuerySpec
+}
+
+// candidates lists the (question, position) pairs of a world at which kind
+// can be applied; only questions whose control reply was as the model says.
+func candidates(w *world, kind *tamperKind, qs []QuerySpec, controlOK map[string]bool) []candidate {
 	var cands []candidate
-	var ctx *caseCtx
-	start := hier*casesPerHier + ci
-	for try := 0; try < len(kinds) && len(cands) == 0; try++ {
-		kind = kinds[perm[(start+try)%len(kinds)]]
-		cands = nil
+	{
 		for _, q := range qs {
 			if !controlOK[q.Kind] {
 				continue
@@ -395,9 +476,14 @@ func (run *runner) tamperCase(w *world, hier, ci int, rng *rand.Rand, perm []int
 				okRole := false
 				switch role {
 				case roleReferral:
-					okRole = shape != "ds" && (positiveKinds[shape] || negativeKinds[shape])
+					okRole = shape != "ds" && (positiveKinds[shape] || negativeKinds[shape]) && !kind.ParentTogether
 				case roleDS:
 					okRole = shape == "ds"
+					if kind.ParentTogether {
+						// every DS-bearing response of the parent is forged: any
+						// question of the zone has to fail, not only the DS one
+						okRole = shape == "ds" || positiveKinds[shape] || negativeKinds[shape]
+					}
 				}
 				if okRole {
 					cands = append(cands, candidate{q: q, zoneRole: zoneRole, role: role, atParent: true})
@@ -405,26 +491,50 @@ func (run *runner) tamperCase(w *world, hier, ci int, rng *rand.Rand, perm []int
 			}
 		}
 	}
+	return cands
+}
+
+func (run *runner) tamperCase(w *world, hier, ci int, rng *rand.Rand, perm []int, controlOK map[string]bool) {
+	r := run.r
+	salt := fmt.Sprintf("t%d", ci)
+	qs := w.queryKinds(salt)
+	// choose the kind by rotation so every family is exercised at any seed
+	var kind *tamperKind
+	var cands []candidate
+	start := hier*casesPerHier + ci
+	for try := 0; try < len(kinds) && len(cands) == 0; try++ {
+		kind = kinds[perm[(start+try)%len(kinds)]]
+		cands = candidates(w, kind, qs, controlOK)
+	}
 	if len(cands) == 0 {
 		r.Count("cases_without_candidate", 1)
 		return
 	}
-	cd := cands[rng.IntN(len(cands))]
-	multi := kind.Name == "downgrade" || kind.Name == "dnskey-add-evil"
+	p := plan{kind: kind, cd: cands[rng.IntN(len(cands))]}
+	p.allServers = rng.IntN(10) < 7
+	p.cdFirst = rng.IntN(4) == 0
+	p.q = p.cd.q
+	p.q.AD = rng.IntN(3) == 0
+	if rng.IntN(6) == 0 {
+		p.q.DO = false // AD-only validating client
+		p.q.AD = true
+	}
+	run.execute(w, hier, ci, p, rng)
+}
+
+// execute runs one tamper case: script the servers, ask, judge the reply, the
+// cache-served follow-ups and the reply after the forgery is withdrawn.
+func (run *runner) execute(w *world, hier, ci int, p plan, rng *rand.Rand) {
+	r := run.r
+	kind, cd, allServers, cdFirst, q := p.kind, p.cd, p.allServers, p.cdFirst, p.q
+	var ctx *caseCtx
+	multi := kind.Name == "downgrade" || kind.Name == "dnskey-add-evil" || kind.ZoneTogether
 	z := w.zones[cd.zoneRole]
 	ctx = &caseCtx{w: w, zoneRole: cd.zoneRole, z: z, parent: w.zones[parentRole(cd.zoneRole)], other: w.zones["other"], qname: cd.q.Name}
 	if ctx.other == ctx.z {
 		ctx.other = nil
 	}
 	ctx.attacker = zm.New(zm.Spec{Apex: z.Apex(), Signed: true, Algorithm: z.Spec().Algorithm})
-	allServers := rng.IntN(10) < 7
-	cdFirst := rng.IntN(4) == 0
-	q := cd.q
-	q.AD = rng.IntN(3) == 0
-	if rng.IntN(6) == 0 {
-		q.DO = false // AD-only validating client
-		q.AD = true
-	}
 	cs := CaseSpec{Hier: hier, Case: ci, Kind: kind.Name, ZoneRole: cd.zoneRole, Role: cd.role, AllSrv: allServers, CDFirst: cdFirst, Query: &q}
 	label := kind.Name + "@" + cd.zoneRole + ":" + cd.role
 	if multi {
@@ -481,11 +591,14 @@ func (run *runner) tamperCase(w *world, hier, ci int, rng *rand.Rand, perm []int
 		if len(kind.ParentRoles) > 0 && ctx.parent != nil {
 			scripted = append(scripted, script(ctx.parent, true, kind.ParentRoles)...)
 		}
+	case cd.atParent && kind.ParentTogether:
+		scripted = script(ctx.parent, true, kind.ParentRoles)
 	case cd.atParent:
 		scripted = script(ctx.parent, true, []string{cd.role})
 	default:
 		scripted = script(z, false, []string{cd.role})
 	}
+	w.installObserver() // lowest priority: sees what the unscripted servers send
 	defer func() {
 		for _, s := range w.u.Servers() {
 			s.ClearScript(true)
@@ -501,7 +614,9 @@ func (run *runner) tamperCase(w *world, hier, ci int, rng *rand.Rand, perm []int
 	// AD is impossible only when the zone's own servers all forge the data
 	// (or its keys) in a validation-breaking way: parent-side forgeries can
 	// legitimately be routed around (explicit DS query).
-	adImpossible := kind.Breaks && allServers && !cd.atParent
+	// A parent-side case that forges every DS-bearing response (referral and
+	// DS answer) at every parent server leaves no verifiable DS either.
+	adImpossible := kind.Breaks && allServers && (!cd.atParent || kind.ParentTogether)
 
 	if cdFirst {
 		cq := q
@@ -540,6 +655,24 @@ func (run *runner) tamperCase(w *world, hier, ci int, rng *rand.Rand, perm []int
 	} else {
 		r.Count("tamper_cases_observed", 1)
 		r.Count("family_observed/"+kind.Name, 1)
+		if strings.HasPrefix(kind.Name, "window-") {
+			// responses whose ONLY defect is the RRSIG validity window, by
+			// the role of the response that carried them
+			for _, role := range []string{roleReferral, roleDS, roleDNSKEY, roleAnswer, roleNegative} {
+				if ctx.window[roleIdx(role)].Load() > 0 {
+					r.Count("window_only_delivered/"+strings.TrimPrefix(kind.Name, "window-")+"/"+role, 1)
+				}
+			}
+			if j.Class == clsServfail {
+				r.Count("window_only_reply_servfail", 1)
+			}
+		}
+		if w.spec.Directed != "" {
+			r.Count("directed_cases_observed/"+directedFamily(w.spec.Directed), 1)
+			if j.Class == clsServfail {
+				r.Count("directed_reply_servfail/"+directedFamily(w.spec.Directed), 1)
+			}
+		}
 		for _, role := range []string{roleReferral, roleDS, roleDNSKEY, roleAnswer, roleNegative} {
 			if ctx.byRole[roleIdx(role)].Load() > 0 {
 				r.Count("role_observed/"+role, 1)
